@@ -19,14 +19,16 @@ theorem batch_positional {c : Cfg} {s : St} (h : Reachable c s) :
   intro i h1 h2
   exact h.inv3.callsDelivered cl hcl _ (mem_zip_of_getElem cl.dests cl.results i h1 h2)
 
-/-- **batch_exactly_once** — until the request returns, for every Batch resolver `k` the sequence of
-    (field context, promise) pairs registered with it equals, *in order*, the concatenation of the
-    arguments of all calls made to its batch function so far followed by what is still pending:
-    every pending field context is seen exactly once, by one call, at the position whose result is
-    routed to its promise. -/
-theorem batch_exactly_once {c : Cfg} {s : St} (h : Reachable c s) (hp : s.phase ≠ .returned) (k : Nat) :
+/-- **batch_exactly_once** — in every execution (patched code; unpatched: in the first execution on
+    an apiRequest), until it returns, for every Batch resolver `k` the sequence of (field context,
+    promise) pairs *this execution* registered with it equals, *in order*, the concatenation of the
+    arguments of all calls *this execution* made to its batch function so far followed by what is
+    still pending: every pending field context is seen exactly once, by one call, at the position
+    whose result is routed to its promise — and nothing from another execution is mixed in. -/
+theorem batch_exactly_once {c : Cfg} {s : St} (h : Reachable c s) (hf : c.fixed = true ∨ s.exec = 0)
+    (hp : s.phase ≠ .returned) (k : Nat) :
     regPairs s k = callPairs s k ++ pendPairs s k :=
-  h.inv2.once hp k
+  h.inv2x.once hf hp k
 
 /-- **one_call_per_wave** — two calls of the same batch resolver in the same wave (= idle-handler
     invocation) are the same call. -/
@@ -42,28 +44,28 @@ theorem flush_delivers_all_pending {c : Cfg} {s s' : St} {rs : List (Nat × List
     (hs : step c s (.flush rs) = some s') :
     s'.batches = [] ∧ ∀ b ∈ s.batches, ∃ cl ∈ s'.calls, cl.wave = s.wave ∧ cl.key = b.key ∧ cl.items = b.items ∧ cl.dests = b.dests := by
   obtain ⟨_, _, _, rfl⟩ := step_flush hs
-  rw [flushAll_fresh s.wave rs s.batches s h.idsOK.q_not_delivered h.idsOK.q_nodup]
+  rw [flushAll_fresh s.wave s.execStart rs s.batches s h.idsOK.q_not_delivered h.idsOK.q_nodup]
   refine ⟨rfl, ?_⟩
   intro b hb
-  refine ⟨mkCall s.wave rs b, ?_, rfl, rfl, rfl, rfl⟩
+  refine ⟨mkCall s.wave s.execStart rs b, ?_, rfl, rfl, rfl, rfl⟩
   simp only [List.mem_append, List.mem_reverse, List.mem_map]
   exact Or.inl ⟨b, hb, rfl⟩
 
 /-- **same_wave_same_call** — between two idle points (`phase = exec`): two invocations of one Batch
-    resolver that were registered in the same exec phase (same wave tag `u`) are never split: if one
+    resolver (the second one of the current execution) that were registered in the same exec phase (same wave tag `u`) are never split: if one
     of them was passed to the batch function, the other was passed in that very call. With `depOK`
     (resolver calls below a promise happen in the exec phase right after the wave that fulfilled it
     — checked by the acceptor on every observed execution) this is the coalescing of *nested* batches:
     the invocations below all promises fulfilled by one wave go to one call of the next. -/
 theorem same_wave_same_call {c : Cfg} {s : St} (h : Reachable c s) (hp : s.phase = .exec) {p1 p2 k u : Nat}
-    (h1 : (p1, k, u) ∈ s.regWave) (h2 : (p2, k, u) ∈ s.regWave) {cl : Call} (hcl : cl ∈ s.calls)
+    (h1 : (p1, k, u) ∈ s.regWave) (h2 : (p2, k, u) ∈ s.regWave) (hcur : s.execStart ≤ p2) {cl : Call} (hcl : cl ∈ s.calls)
     (hin : p1 ∈ cl.dests) : p2 ∈ cl.dests := by
   have i4 := h.inv4
   obtain ⟨hw1, ht1⟩ := i4.callTag cl hcl
   have e1 := eq_of_nodup_map (fun x : Nat × Nat × Nat => x.1) s.regWave i4.rwNodup (ht1 p1 hin) h1 rfl
   have hk : cl.key = k := by simpa using congrArg (fun x : Nat × Nat × Nat => x.2.1) e1
   have hu : cl.wave - 1 = u := by simpa using congrArg (fun x : Nat × Nat × Nat => x.2.2) e1
-  rcases i4.covered (by simp [hp]) _ h2 with hq | ⟨cl2, hcl2, hin2⟩
+  rcases i4.covered (by simp [hp]) _ h2 hcur with hq | ⟨cl2, hcl2, hin2⟩
   · -- still pending: impossible, it would carry the current wave tag
     exfalso
     simp only [qIds, List.mem_flatMap] at hq
@@ -98,7 +100,7 @@ example :
 theorem delivered_result_right {c : Cfg} {s : St} (h : Reachable c s) :
     (∀ x ∈ s.delivered, x ∈ s.finished ∨
         (∃ cl ∈ s.calls, ∃ i, ∃ (h1 : i < cl.dests.length) (h2 : i < cl.results.length), cl.dests[i] = x.1 ∧ cl.results[i] = x.2) ∨
-        (c.fixed = true ∧ s.phase = .returned ∧ x.2 = errFinished)) ∧
+        (c.fixed = true ∧ returnedOnce s ∧ x.2 = errFinished)) ∧
     (s.delivered.map (·.1)).Nodup ∧ (s.finished.map (·.1)).Nodup := by
   refine ⟨?_, ?_, h.inv3.finNodup⟩
   · intro x hx
@@ -142,7 +144,7 @@ theorem idle_progress {c : Cfg} {s : St} (h : Reachable c s) (hc : s.crashed = f
       · right; right
         apply fin_enabled h.idsOK h.inv1 hc hbl hb ho
         -- the awaited promise has no result, so a task for it is still running
-        obtain ⟨w, hw, hwd, _⟩ := h.invTop hp
+        obtain ⟨w, _, hw, hwd, _⟩ := h.invTop hp
         have hcnt := h.idsOK w
         rw [if_pos hw] at hcnt
         unfold cnt at hcnt
@@ -179,6 +181,7 @@ theorem idle_terminates {c : Cfg} {s s' : St} {l : Label} (h : Reachable c s) (h
   | idle => obtain ⟨_, hph, _⟩ := step_idle hs; rcases hp with hp | hp <;> simp [hph] at hp
   | ret => obtain ⟨_, hph, _⟩ := step_ret hs; rcases hp with hp | hp <;> simp [hph] at hp
   | idleRet => exact absurd rfl hl
+  | start => obtain ⟨_, hph, _⟩ := step_start hs; rcases hp with hp | hp <;> simp [hph] at hp
   | _ => rfl
 
 /-- **idle_returns_only_after_progress** — the idle handler returns only after it flushed the
@@ -189,14 +192,16 @@ theorem idle_returns_only_after_progress {c : Cfg} {s s' : St} (h : Reachable c 
   obtain ⟨_, _, hp, _⟩ := step_idleRet hs
   exact h.inv1.progress hp
 
-/-- **no_blocked_task_at_return** (patched code) — after the request returned, as long as any task is
-    still running or offering its resolution, some step is enabled (a body returns, or a blocked task
-    sees `done` closed and leaves), and every such step decreases the measure: every schedule ends,
-    after at most `2·#running + #blocked` steps, with no goroutine left. -/
+/-- **no_blocked_task_at_return** (patched code) — after an execution returned (and before the next
+    one starts on the same apiRequest, if any), as long as any task is still running or offering its
+    resolution, some step of a task is enabled (a body returns, or a blocked task sees `done` closed
+    and leaves), and every step other than the start of the next execution decreases the measure:
+    every schedule ends, after at most `2·#running + #blocked` steps, with no goroutine left. -/
 theorem no_blocked_task_at_return {s : St} (h : Reachable ⟨true⟩ s) (hp : s.phase = .returned)
     (hc : s.crashed = false) (ho : s.orphaned = []) (hne : s.running ≠ [] ∨ s.blocked ≠ []) :
-    (∃ l s', step ⟨true⟩ s l = some s') ∧
-    (∀ l s', step ⟨true⟩ s l = some s' → measure s' < measure s ∧ s'.phase = .returned) := by
+    (∃ l s', l.isWork = true ∧ step ⟨true⟩ s l = some s') ∧
+    (∀ l s', step ⟨true⟩ s l = some s' → l ≠ .start →
+      measure s' < measure s ∧ s'.phase = .returned ∧ s'.crashed = false ∧ s'.orphaned = []) := by
   have hb : s.batches = [] := h.inv1.retBatches rfl hp
   constructor
   · by_cases hbl : s.blocked = []
@@ -205,12 +210,12 @@ theorem no_blocked_task_at_return {s : St} (h : Reachable ⟨true⟩ s) (hp : s.
         · exact h1
         · exact absurd hbl h1
       obtain ⟨t, r, s', hs⟩ := fin_enabled h.idsOK h.inv1 hc hbl hb ho hr
-      exact ⟨_, _, hs⟩
+      exact ⟨_, _, rfl, hs⟩
     · obtain ⟨x, hx⟩ := List.exists_mem_of_ne_nil _ hbl
       obtain ⟨r', hr'⟩ := mem_lookup_isSome (t := x.1) (r := x.2) hx
-      exact ⟨.release x.1, took s x.1 r', by simp [step, hc, hp, hr']⟩
-  · intro l s' hs
-    have hwork : l.isWork = true ∧ s'.phase = .returned := by
+      exact ⟨.release x.1, took s x.1 r', rfl, by simp [step, hc, hp, hr']⟩
+  · intro l s' hs hns
+    have hwork : l.isWork = true ∧ s'.phase = .returned ∧ s'.crashed = false ∧ s'.orphaned = [] := by
       cases l with
       | go t dep => obtain ⟨_, hph, _⟩ := step_go hs; simp [hph] at hp
       | batch k i p dep => obtain ⟨_, hph, _⟩ := step_batch hs; simp [hph] at hp
@@ -221,18 +226,20 @@ theorem no_blocked_task_at_return {s : St} (h : Reachable ⟨true⟩ s) (hp : s.
       | flush rs => obtain ⟨_, hph, _⟩ := step_flush hs; simp [hph] at hp
       | recvBlock t => obtain ⟨_, _, _, hph, _⟩ := step_recvBlock hs; simp [hph] at hp
       | drain t => obtain ⟨_, _, _, hph, _⟩ := step_drain hs; simp [hph] at hp
+      | start => exact absurd rfl hns
       | fin t r =>
         obtain ⟨_, _, _, _, _, _, rfl⟩ := step_fin hs
-        exact ⟨rfl, hp⟩
+        exact ⟨rfl, hp, hc, ho⟩
       | release t =>
         obtain ⟨r, _, _, _, hl, rfl⟩ := step_release hs
         rw [took_eq h.idsOK (lookup_some_mem hl)]
-        exact ⟨rfl, hp⟩
+        exact ⟨rfl, hp, hc, ho⟩
     exact ⟨measure_step h.idsOK hs hwork.1, hwork.2⟩
 
-/-- **all_tasks_exit** (patched code) — from every reachable state after the return there is a
+/-- **all_tasks_exit** (patched code) — from every reachable state after a return there is a
     continuation (bodies returning, blocked tasks leaving through `done`) after which no goroutine of
-    the request exists; by `no_blocked_task_at_return` every maximal continuation is of this kind. -/
+    the request exists; by `no_blocked_task_at_return` every maximal continuation that does not start
+    another execution is of this kind. -/
 theorem all_tasks_exit {s : St} (h : Reachable ⟨true⟩ s) (hp : s.phase = .returned)
     (hc : s.crashed = false) (ho : s.orphaned = []) :
     ∃ s', Steps ⟨true⟩ s s' ∧ s'.running = [] ∧ s'.blocked = [] := by
@@ -245,24 +252,10 @@ theorem all_tasks_exit {s : St} (h : Reachable ⟨true⟩ s) (hp : s.phase = .re
         by_cases hr : s.running = []
         · right; intro hb; exact hdone ⟨hr, hb⟩
         · exact Or.inl hr
-      obtain ⟨⟨l, s1, hs⟩, hall⟩ := no_blocked_task_at_return h hp hc ho hne
-      obtain ⟨hlt, hp1⟩ := hall l s1 hs
-      have hco : s1.crashed = false ∧ s1.orphaned = [] := by
-        cases l with
-        | fin t r => obtain ⟨_, _, _, _, _, _, rfl⟩ := step_fin hs; exact ⟨hc, ho⟩
-        | release t =>
-          obtain ⟨r, _, _, _, hl, rfl⟩ := step_release hs
-          rw [took_eq h.idsOK (lookup_some_mem hl)]; exact ⟨hc, ho⟩
-        | go t dep => obtain ⟨_, hph, _⟩ := step_go hs; simp [hph] at hp
-        | batch k i p dep => obtain ⟨_, hph, _⟩ := step_batch hs; simp [hph] at hp
-        | chain t ps => obtain ⟨_, hph, _⟩ := step_chain hs; simp [hph] at hp
-        | idle => obtain ⟨_, hph, _⟩ := step_idle hs; simp [hph] at hp
-        | ret => obtain ⟨_, hph, _⟩ := step_ret hs; simp [hph] at hp
-        | idleRet => obtain ⟨_, _, hph, _⟩ := step_idleRet hs; simp [hph] at hp
-        | flush rs => obtain ⟨_, hph, _⟩ := step_flush hs; simp [hph] at hp
-        | recvBlock t => obtain ⟨_, _, _, hph, _⟩ := step_recvBlock hs; simp [hph] at hp
-        | drain t => obtain ⟨_, _, _, hph, _⟩ := step_drain hs; simp [hph] at hp
-      obtain ⟨s', hst, h1, h2⟩ := ih (measure s1) (hn ▸ hlt) (h.step hs) hp1 hco.1 hco.2 rfl
+      obtain ⟨⟨l, s1, hw, hs⟩, hall⟩ := no_blocked_task_at_return h hp hc ho hne
+      have hns : l ≠ .start := by intro e; rw [e] at hw; cases hw
+      obtain ⟨hlt, hp1, hc1, ho1⟩ := hall l s1 hs hns
+      obtain ⟨s', hst, h1, h2⟩ := ih (measure s1) (hn ▸ hlt) (h.step hs) hp1 hc1 ho1 rfl
       exact ⟨s', .cons hs hst, h1, h2⟩
 
 /-- The history of F-15a in the *unpatched* code: one Go task, the request returns (a failing
@@ -271,13 +264,14 @@ def f15aHistory : List Label := [.go 0 none, .ret, .fin 0 ⟨5, false⟩]
 
 /-- **no_blocked_task_at_return is false of the unpatched code** (negation witness, F-15a): the
     history above is an execution, it ends after the return with the task offering its resolution,
-    and *no* step is enabled in that state — the goroutine is parked in its send forever. -/
+    and *no* step is enabled in that state except the start of another execution on the same
+    apiRequest (graphql-ws; an HTTP request has none) — the goroutine is parked in its send forever. -/
 theorem f15a_unfixed_witness :
     ∃ s, runFrom ⟨false⟩ init f15aHistory 0 = .ok s ∧ s.phase = .returned ∧ s.blocked = [(0, ⟨5, false⟩)] ∧
-      ∀ l, step ⟨false⟩ s l = none := by
+      ∀ l, l ≠ .start → step ⟨false⟩ s l = none := by
   refine ⟨_, rfl, rfl, rfl, ?_⟩
-  intro l
-  cases l <;> simp [step, init]
+  intro l hl
+  cases l <;> simp [step, init] at hl ⊢
 
 /-- The same history in the patched code goes on: the task sees `done` closed, hands its result to
     its own promise and leaves. -/
@@ -336,7 +330,7 @@ theorem contract_keeps_model_clean {c : Cfg} {s : St} (h : ReachableWF c s) : s.
     | idle => obtain ⟨_, _, _, rfl⟩ := step_idle hs; exact ih
     | flush rs =>
       obtain ⟨_, _, _, rfl⟩ := step_flush hs
-      rw [flushAll_fresh s.wave rs s.batches s hi.q_not_delivered hi.q_nodup]
+      rw [flushAll_fresh s.wave s.execStart rs s.batches s hi.q_not_delivered hi.q_nodup]
       obtain ⟨h1, h2⟩ := flushOrph_wf rs s.batches hwf
       simp [h1, h2, ih.1, ih.2]
     | recvBlock t =>
@@ -355,6 +349,7 @@ theorem contract_keeps_model_clean {c : Cfg} {s : St} (h : ReachableWF c s) : s.
     | release t =>
       obtain ⟨r, _, _, _, hl, rfl⟩ := step_release hs
       rw [took_eq hi (lookup_some_mem hl)]; exact ih
+    | start => obtain ⟨_, _, rfl⟩ := step_start hs; exact ih
 
 /-- **accepted_is_reachable** — every label sequence the driver `c15model` accepts (`runFrom … = ok s`,
     the acceptor of the correspondence check) ends in a reachable state: the theorems above speak
@@ -371,5 +366,267 @@ theorem accepted_is_reachable {c : Cfg} (ls : List Label) : ∀ {s0 s : St} {i :
     · rename_i s1 hs
       exact ih (h0.step hs) hr
 
+
+/-! ### several executions on one apiRequest (graphql-ws subscriptions) -/
+
+/-- **event_isolation** (patched code) — batches never cross executions: every promise a batch call
+    received belongs to the execution whose idle handler made the call (`cl.lo` is that execution's
+    first promise id; later promises did not exist yet); calls made before the current execution
+    started contain only older promises, calls of the current execution only its own; and whatever is
+    pending in `batches` was registered by the current execution. -/
+theorem event_isolation {c : Cfg} {s : St} (h : Reachable c s) (hf : c.fixed = true) :
+    (∀ cl ∈ s.calls, ∀ p ∈ cl.dests, cl.lo ≤ p) ∧
+    (∀ cl ∈ s.calls, s.execWave < cl.wave → ∀ p ∈ cl.dests, s.execStart ≤ p) ∧
+    (∀ cl ∈ s.calls, cl.wave ≤ s.execWave → ∀ p ∈ cl.dests, p < s.execStart) ∧
+    (∀ b ∈ s.batches, ∀ p ∈ b.dests, s.execStart ≤ p) := by
+  have i5 := h.inv5
+  refine ⟨i5.callLo hf, ?_, i5.callOld, i5.pendCur hf⟩
+  intro cl hcl hlt p hp
+  have := i5.callLo hf cl hcl p hp
+  rw [i5.callNew cl hcl hlt] at this
+  exact this
+
+/-- The history of F-15c in the *unpatched* code: event 0 registers a Batch invocation and returns
+    early; event 1 starts on the same apiRequest, starts a Go task and reaches an idle point. -/
+def f15cHistory : List Label :=
+  [.batch 0 100 0 none, .ret, .start, .go 1 none, .idle, .flush [(0, [⟨7, false⟩])]]
+
+/-- **event_isolation is false of the unpatched code** (negation witness, F-15c): the history above is
+    an execution, and the batch call made by event 1's idle handler (`lo = 1`) contains promise 0 of
+    event 0. In the patched code the same labels are rejected at the flush: nothing is pending. -/
+theorem f15c_unfixed_witness :
+    (∃ s cl, runFrom ⟨false⟩ init f15cHistory 0 = .ok s ∧ cl ∈ s.calls ∧ cl.lo = 1 ∧ 0 ∈ cl.dests) ∧
+    runFrom ⟨true⟩ init f15cHistory 0 = .error 5 := by
+  constructor
+  · exact ⟨_, ⟨1, 1, 0, [100], [0], [⟨7, false⟩]⟩, rfl, by decide, rfl, by decide⟩
+  · rfl
+
+/-- **event_results_isolated** — what a promise of the current execution holds was produced by the
+    current execution: by its own task (a task of the current execution: its id is the promise), by a
+    batch call the current execution made, or it is the `finish` error. A resolution of an earlier
+    execution's task that a later idle handler happens to receive goes to that task's own promise. -/
+theorem event_results_isolated {c : Cfg} {s : St} (h : Reachable c s) :
+    ∀ x ∈ s.delivered, s.execStart ≤ x.1 →
+      x ∈ s.finished ∨
+      (∃ cl ∈ s.calls, s.execWave < cl.wave ∧ ∃ i, ∃ (h1 : i < cl.dests.length) (h2 : i < cl.results.length),
+          cl.dests[i] = x.1 ∧ cl.results[i] = x.2) ∨
+      (c.fixed = true ∧ returnedOnce s ∧ x.2 = errFinished) := by
+  intro x hx hlo
+  rcases (delivered_result_right h).1 x hx with h1 | ⟨cl, hcl, i, h1, h2, hd, hr⟩ | h1
+  · exact Or.inl h1
+  · right; left
+    refine ⟨cl, hcl, ?_, i, h1, h2, hd, hr⟩
+    apply Nat.lt_of_not_le
+    intro hle
+    have := h.inv5.callOld cl hcl hle x.1 (hd ▸ List.getElem_mem h1)
+    omega
+  · exact Or.inr (Or.inr h1)
+
+/-- **stale_tasks_can_leave** (patched code, batch functions keeping their contract) — in *every*
+    phase of a later execution: as long as a task of an earlier execution is still running or
+    offering its resolution, a step of such a task is enabled — a blocked one sees its own (closed)
+    `done` and leaves, or the body of the running one with the least id can return, all its inputs
+    being promises of its own, finished execution. No task of a finished execution is ever stuck,
+    whatever the current execution does; `finish()` after each event leaves no blocked task behind. -/
+theorem stale_tasks_can_leave {s : St} (h : Reachable ⟨true⟩ s) (hc : s.crashed = false) (ho : s.orphaned = [])
+    (hst : (∃ t ∈ s.running, t.id < s.execStart) ∨ (∃ x ∈ s.blocked, x.1 < s.execStart)) :
+    ∃ t, t < s.execStart ∧ ((∃ s', step ⟨true⟩ s (.release t) = some s') ∨ (∃ r s', step ⟨true⟩ s (.fin t r) = some s')) := by
+  by_cases hbl : ∃ x ∈ s.blocked, x.1 < s.execStart
+  · obtain ⟨x, hx, hlt⟩ := hbl
+    obtain ⟨r', hr'⟩ := mem_lookup_isSome (t := x.1) (r := x.2) hx
+    exact ⟨x.1, hlt, Or.inl ⟨took s x.1 r', by simp [step, hc, hlt, hr']⟩⟩
+  · have hb : ∀ x ∈ s.blocked, s.execStart ≤ x.1 := by
+      intro x hx
+      apply Nat.le_of_not_lt
+      intro hlt; exact hbl ⟨x, hx, hlt⟩
+    have hr : ∃ t ∈ s.running, t.id < s.execStart := by
+      rcases hst with h1 | h1
+      · exact h1
+      · exact absurd h1 hbl
+    have hq : ∀ p ∈ qIds s, s.execStart ≤ p := by
+      intro p hp
+      simp only [qIds, List.mem_flatMap] at hp
+      obtain ⟨b, hb', hpb⟩ := hp
+      exact h.inv5.pendCur rfl b hb' p hpb
+    obtain ⟨t, r, s', hlt, hs⟩ := fin_enabled_below s.execStart h.idsOK h.inv1 hc hb hq ho hr
+    exact ⟨t, hlt, Or.inr ⟨r, s', hs⟩⟩
+
+/-- **stale_work_decreases** — each such step strictly decreases the work left over from earlier
+    executions (`2·#stale running + #stale blocked`), so every schedule in which bodies return drains
+    it completely. -/
+theorem stale_work_decreases {s s' : St} {t : Nat} (h : Reachable ⟨true⟩ s) (hlt : t < s.execStart) :
+    (step ⟨true⟩ s (.release t) = some s' → staleWork s' < staleWork s) ∧
+    (∀ r, step ⟨true⟩ s (.fin t r) = some s' → staleWork s' < staleWork s) := by
+  constructor
+  · intro hs
+    obtain ⟨r, _, _, _, hl, rfl⟩ := step_release hs
+    rw [took_eq h.idsOK (lookup_some_mem hl)]
+    have := filter_filter_lt (fun x : Nat × Res => x.1) t s.execStart s.blocked ⟨(t, r), lookup_some_mem hl, rfl⟩ hlt
+    simp only [staleWork]
+    omega
+  · intro r hs
+    obtain ⟨task, e, _, hf, _, _, rfl⟩ := step_fin hs
+    obtain ⟨hm, hid⟩ := find_task hf
+    have := filter_filter_lt (fun x : Task => x.id) t s.execStart s.running ⟨task, hm, hid⟩ hlt
+    have h2 : decide (t < s.execStart) = true := by simpa using hlt
+    simp only [staleWork, List.filter_cons, h2, if_true, List.length_cons]
+    omega
+
+/-- **idle_return_fulfils_new_promise** — batch functions keeping their contract: when the idle
+    handler is about to return (drain phase), some promise holds a result that it did not hold when
+    the handler was entered (`snap`): every invocation of the real idle handler fulfils a non-empty
+    set of promises that were outstanding — it is a schedule in the sense of C02's executor model
+    (`ApiFu/C02`: "every round fulfils a non-empty subset of the outstanding promises"), with the one
+    difference that the promise may be one consumed by pagination.go's chain/join goroutine instead of
+    by the executor (then the flush delivered it; `idle_returns_only_after_progress`). -/
+theorem idle_return_fulfils_new_promise {c : Cfg} {s : St} (h : ReachableWF c s) (hp : s.phase = .drain) :
+    ∃ x ∈ s.delivered, x.1 ∉ s.snap.map (·.1) := by
+  obtain ⟨l, hne, hl⟩ := h.invC.drainNew hp
+  obtain ⟨x, hx⟩ := List.exists_mem_of_ne_nil l hne
+  refine ⟨x, by rw [hl]; exact List.mem_append_left _ hx, ?_⟩
+  have hn := (delivered_result_right h.reachable).2.1
+  rw [hl, List.map_append, List.nodup_append] at hn
+  intro hin
+  exact hn.2.2 x.1 (List.mem_map_of_mem hx) x.1 hin rfl
+
+/-- **idle_invocations_le_promises** — the executor's loop `for !done { IdleHandler(); f.Poll() }`
+    runs at most once per promise: the number of idle-handler invocations that have returned is at
+    most the number of fulfilled promises, which is at most the number of promises created (C02's
+    `idle_rounds_le_promises`, here for the real handler and counting pagination.go's promises too). -/
+theorem idle_invocations_le_promises {c : Cfg} {s : St} (h : ReachableWF c s) :
+    s.wave ≤ s.delivered.length + (if s.phase = .top then 1 else 0) ∧ s.delivered.length ≤ s.next :=
+  ⟨h.invC.waveLe, delivered_le_next h.reachable⟩
+
+/-- **potential_step** — batch functions keeping their contract: every step that is not a resolver
+    call or the start of another execution strictly decreases the potential; a resolver call adds at
+    most 5, a start at most 2. -/
+theorem potential_step {c : Cfg} {s s' : St} {l : Label} (h : ReachableWF c s) (hwf : l.wellFormedAt s)
+    (hs : step c s l = some s') : potential s' + l.cost ≤ potential s + l.gain := by
+  have hi := h.reachable.idsOK
+  have hd := delivered_le_next h.reachable
+  have hd' := delivered_le_next (h.reachable.step hs)
+  cases l with
+  | go t dep =>
+    obtain ⟨_, hph, rfl, rfl, _⟩ := step_go hs
+    simp only [potential, measure, Label.gain, Label.cost, List.length_cons, hph, phaseRank] at hd' ⊢
+    omega
+  | chain t ps =>
+    obtain ⟨_, hph, rfl, _, rfl⟩ := step_chain hs
+    simp only [potential, measure, Label.gain, Label.cost, List.length_cons, hph, phaseRank] at hd' ⊢
+    omega
+  | batch k item p dep =>
+    obtain ⟨_, hph, rfl, rfl, _⟩ := step_batch hs
+    have := addToBatch_length s.batches k item s.next
+    simp only [potential, measure, Label.gain, Label.cost, hph, phaseRank] at hd' ⊢
+    omega
+  | fin t r =>
+    have hm := measure_step hi hs rfl
+    obtain ⟨_, _, _, _, _, _, rfl⟩ := step_fin hs
+    simp only [potential, Label.gain, Label.cost] at hm ⊢
+    omega
+  | idle =>
+    obtain ⟨_, hph, _, rfl⟩ := step_idle hs
+    simp only [potential, measure, Label.gain, Label.cost, hph, phaseRank]
+    omega
+  | flush rs =>
+    obtain ⟨_, hph, hne, rfl⟩ := step_flush hs
+    rw [flushAll_fresh s.wave s.execStart rs s.batches s hi.q_not_delivered hi.q_nodup] at hd' ⊢
+    have hF := flushDel_ne rs s.batches hne h.invC.batchDests hwf
+    have hlen : 0 < (flushDel rs s.batches).length := List.length_pos_iff.mpr hF
+    have hb : 0 < s.batches.length := List.length_pos_iff.mpr hne
+    simp only [potential, measure, Label.gain, Label.cost, hph, phaseRank, List.length_append, List.length_nil] at hd' ⊢
+    omega
+  | recvBlock t =>
+    obtain ⟨r, _, _, hph, _, hl, rfl⟩ := step_recvBlock hs
+    have hm := lookup_some_mem hl
+    have hlt : s.delivered.length < s.next := by
+      have e := took_eq hi hm
+      split at hd' <;> (rw [e] at hd'; simp only [List.length_cons] at hd'; omega)
+    have hp := potential_took hi hm hlt
+    have e := took_eq hi hm
+    split
+    · have hph' : (took s t r).phase = s.phase := by rw [e]
+      simp only [potential, measure, Label.gain, Label.cost, hph', hph, phaseRank] at hp ⊢
+      omega
+    · simp only [potential, measure, Label.gain, Label.cost, hph, phaseRank] at hp ⊢
+      omega
+  | drain t =>
+    obtain ⟨r, _, _, hph, hl, rfl⟩ := step_drain hs
+    have hm := lookup_some_mem hl
+    have e := took_eq hi hm
+    have hlt : s.delivered.length < s.next := by
+      rw [e] at hd'; simp only [List.length_cons] at hd'; omega
+    have hp := potential_took hi hm hlt
+    have hph' : (took s t r).phase = s.phase := by rw [e]
+    simp only [potential, Label.gain, Label.cost, hph'] at hp ⊢
+    omega
+  | idleRet =>
+    obtain ⟨_, _, hph, rfl⟩ := step_idleRet hs
+    simp only [potential, measure, Label.gain, Label.cost, hph, phaseRank]
+    omega
+  | ret =>
+    obtain ⟨_, hph, rfl⟩ := step_ret hs
+    split
+    · rw [finishBatches_eq hi] at hd' ⊢
+      simp only [potential, measure, Label.gain, Label.cost, hph, phaseRank, List.length_append, List.length_nil] at hd' ⊢
+      omega
+    · simp only [potential, measure, Label.gain, Label.cost, hph, phaseRank]
+      omega
+  | release t =>
+    obtain ⟨r, _, _, _, hl, rfl⟩ := step_release hs
+    have hm := lookup_some_mem hl
+    have e := took_eq hi hm
+    have hlt : s.delivered.length < s.next := by
+      rw [e] at hd'; simp only [List.length_cons] at hd'; omega
+    have hp := potential_took hi hm hlt
+    have hph' : (took s t r).phase = s.phase := by rw [e]
+    simp only [potential, Label.gain, Label.cost, hph'] at hp ⊢
+    omega
+  | start =>
+    obtain ⟨_, hph, rfl⟩ := step_start hs
+    simp only [potential, measure, Label.gain, Label.cost, hph, phaseRank]
+    omega
+
+
+theorem run_potential {c : Cfg} {s s' : St} {ls : List Label} (hr : RunWF c s ls s') (h : ReachableWF c s) :
+    potential s' + (ls.map Label.cost).sum ≤ potential s + (ls.map Label.gain).sum := by
+  induction hr with
+  | nil => simp
+  | cons hwf hs _ ih =>
+    have h1 := potential_step h hwf hs
+    have h2 := ih (h.step hwf hs)
+    simp only [List.map_cons, List.sum_cons]
+    omega
+
+/-- **request_completes** — the real idle handler composed with the executor's loop
+    (`wait`: `f.Poll(); for !done { e.IdleHandler(); f.Poll() }`, abstractly: resolver calls in the
+    exec phase, `idle` only while an awaited promise is outstanding, `ret`), for every interleaving
+    with the background goroutines, batch functions keeping their contract. For every run from the
+    initial state:
+    (1) *no livelock*: the steps that are not resolver calls (or starts of further executions) number
+        at most `2 + 5·#resolver calls + 2·#starts` — the handler's loops, the receives, the handler
+        invocations themselves and the task steps are all paid for by the promises created;
+    (2) *no deadlock*: while the handler is inside, a step is enabled (flush / receive / a task body
+        whose inputs are fulfilled; in the drain phase its return) — so, bodies terminating, every
+        invocation returns;
+    (3) the handler has been invoked at most once per fulfilled promise (`+1` while it is inside).
+    Hence an execution whose resolvers are called finitely often (the executor's side, C02
+    `execution_terminates`) returns. -/
+theorem request_completes {c : Cfg} {s : St} {ls : List Label} (hr : RunWF c init ls s) :
+    (ls.map Label.cost).sum ≤ 2 + (ls.map Label.gain).sum ∧
+    (s.phase = .top → (∃ rs s', step c s (.flush rs) = some s') ∨ (∃ t s', step c s (.recvBlock t) = some s') ∨
+                      (∃ t r s', step c s (.fin t r) = some s')) ∧
+    (s.phase = .drain → ∃ s', step c s .idleRet = some s') ∧
+    s.wave ≤ s.delivered.length + 1 ∧ s.delivered.length ≤ s.next := by
+  have hw : ReachableWF c s := hr.reachable .init
+  obtain ⟨ho, hc⟩ := contract_keeps_model_clean hw
+  have hp := run_potential hr .init
+  have hi := idle_progress hw.reachable hc ho
+  have hv := idle_invocations_le_promises hw
+  refine ⟨?_, hi.1, hi.2, ?_, hv.2⟩
+  · have : potential init = 2 := rfl
+    omega
+  · have := hv.1
+    split at this <;> omega
 
 end ApiFu.C15
